@@ -140,12 +140,16 @@ return __ALL if _N == 0 else __SAME
     eng = [n for n in walk_no_nested(f.node) if isinstance(n, ast.Assign) and isinstance(n.value, ast.Call) and call_name(n.value) == 'calculateLikelihood']
     ctx.need(len(eng) == 1, 'calculate_likelihood calls the engine once')
     fv = unparse(eng[0].targets[0])
+    from ..pattern import find_expr
+
     for r in rets:
         t = unparse(r.value)
         if t == fv:
             ok, what = True, 'unscaled: the engine value'
         else:
-            ok = t in (f'{fv} / float(self.database.get_sample_size())', f'{fv} / self.database.get_sample_size()')
+            # the matcher looks through temporaries (sample_size = self.database.get_sample_size())
+            hit = [b for b in find_expr(r, '_F / float(self.database.get_sample_size())') + find_expr(r, '_F / self.database.get_sample_size()') if b['__node__'] is r.value]
+            ok = bool(hit) and hit[0]['_F'] == fv
             what = f'scaled: {t}'
         guard = [i for i in walk_no_nested(f.node) if isinstance(i, ast.If) and r in i.body]
         if t != fv:
